@@ -28,7 +28,7 @@ Mk(tpl, t, k) ==
     [] tpl = "IMG" -> E(12, "MAPA", 0, [rank |-> 1, id |-> 1], 31, 7941)
     [] tpl = "IMG2" -> E(12, "MAPA", 0, [rank |-> 0, id |-> 2], 31, 7941)
 
-DumpOf(shape, tm) == [tmap |-> tm, evs |-> [i \in 1..Len(shape) |-> Mk(shape[i][1], shape[i][2], i)]]
+DumpOf(shape, tm) == [tmap |-> tm, evs |-> [i \in 1..Len(shape) |-> Mk(shape[i][1], shape[i][2], i)], logs |-> <<>>]
 TM1 == <<[tid |-> 1, pid |-> 5, name |-> "p"]>>
 TM2 == <<[tid |-> 2, pid |-> 5, name |-> "r"]>>
 \* dump 1: the parent announces thread 2 and names its process; a mach record; dump 2: the string record WITHOUT its
@@ -38,17 +38,22 @@ DumpsLearn == << DumpOf(<< <<"B2", 1>>, <<"NTDo", 1>>, <<"M", 2>>, <<"B3", 2>> >
 \* dump 1 announces image 2 below the frames, dump 2 has only a sample
 DumpsImg == << DumpOf(<< <<"IMG2", 1>>, <<"PS", 1>>, <<"H2", 1>>, <<"D", 1>>, <<"PE", 1>> >>, TM1),
                DumpOf(<< <<"PS", 1>>, <<"H2", 1>>, <<"D", 1>>, <<"PE", 1>>, <<"IMG", 1>> >>, TM1) >>
+\* version-3 dumps with log records: one names a process and a thread (extends the tables), one of thread 0 ("no thread")
+L(i, t, p, n) == [i |-> i, tid |-> t, pid |-> p, proc |-> n]
+DumpsLogs == << [DumpOf(<< <<"B2", 1>>, <<"B3", 2>> >>, TM1) EXCEPT !.logs = <<L(1, 2, 6, "s"), L(2, 0, 5, "p"), L(3, 1, 5, "")>>],
+                [DumpOf(<< <<"B3", 2>> >>, TM2) EXCEPT !.logs = <<L(1, 1, 9, "z"), L(2, 2, 5, "r")>>] >>
 CONSTANT DumpSet
-Dumps == IF DumpSet = "learn" THEN DumpsLearn ELSE DumpsImg
+Dumps == IF DumpSet = "learn" THEN DumpsLearn ELSE IF DumpSet = "logs" THEN DumpsLogs ELSE DumpsImg
 
 Tables == [A |-> {2, 3, 4, 5, 6, 8}, B |-> {2, 8, 9}]
-CodesFor(kind) == IF kind = "fkev" THEN {"A", "B"} ELSE IF kind = "kev" THEN {"-"} ELSE {"W"}
+CodesFor(kind) == IF kind = "fkev" THEN {"A", "B"} ELSE IF kind \in {"kev", "logs"} THEN {"-"} ELSE {"W"}
 
 NoF == [ftid |-> NoneTid, fproc |-> NoProc, fclass |-> <<>>, fsub |-> <<>>]
 CfgAll == {NoF, [NoF EXCEPT !.fclass = <<4>>], [NoF EXCEPT !.fsub = <<1036>>], [NoF EXCEPT !.fclass = <<1>>, !.fsub = <<1037>>]}
 CfgTwo == {NoF, [NoF EXCEPT !.fclass = <<4>>]}
 CfgSub == {NoF, [NoF EXCEPT !.fsub = <<1036>>], [NoF EXCEPT !.fsub = <<1037>>]}
 CfgNone == {NoF}
+CfgLogs == {NoF, [NoF EXCEPT !.ftid = 2], [NoF EXCEPT !.fproc = [kind |-> "name", name |-> "r"]], [NoF EXCEPT !.fproc = [kind |-> "both", pid |-> 5, name |-> "5"]]}
 
 VARIABLES so, gens, steps
 vars == <<so, gens, steps>>
